@@ -6,6 +6,7 @@
   and the store.
 -/
 import CprocVerif.Lemmas.Lower2Leaf
+import CprocVerif.Lemmas.Lower2Func
 
 set_option linter.unusedSimpArgs false
 
@@ -248,17 +249,34 @@ theorem retCont_call_item (T : Stat) {pre post : List Item} {res : String} {k : 
 /-- Executions of function bodies with fuel `n` are simulated as activations on top of any frames and any
     memory with room for `T.d` activations. -/
 def FuncSim (T : Stat) (n : Nat) : Prop :=
-  ∀ (fn : String) (g : CSem2.Func) (sid : Nat) (ρ : List Int) (v : Int) (M : Mem)
+  ∀ (fn : String) (g : CSem2.Func) (sid : Nat) (ρ : List Int) (ws : List (Option Int)) (v : Int) (M : Mem)
     (rest : List Qbe.Frame) (tr : Array String) (env0 : Env),
     lookup T.P fn = some g → EnvOK T.S.cs g.params ρ → MemInv M → Room T.K T.d M → M.sp ≤ stackTop →
-    (∀ (k : Nat) (t : CSem.Ty) (v' : Int), g.params[k]? = some t → ρ[k]? = some v' →
+    (∀ (k : Nat) (t : CSem.Ty) (v' : Int), g.pwin.length ≤ k → g.params[k]? = some t → ρ[k]? = some v' →
       ∃ r, env0[tmpName (2 * k + 1)]? = some r ∧ StoreVal t v' r) →
-    exec T.S.cs T.P n (initStore g ρ) g.body = some (.ret v) →
+    WinOK T.S.cs g ws env0 M →
+    exec T.S.cs T.P n (initStore g ρ ws) g.body = some (.ret v) →
     ∃ k st r, Reach T.S.p T.S.ext k
         (mkSt ⟨FuncInfo.of (Lower2.emitFunc T.S.cs sid g), M.stack.size, M.sp, rest, tr⟩ env0
           { M with sp := M.sp - frameCost } 0 0) st ∧
       step T.S.p T.S.ext st = retCont T.S.p rest M tr (.scalar r) ∧ RetRep g.ret v r ∧
       InRange (g.ret.intTy T.S.cs) v
+
+/-- a function without array parameters -/
+theorem FuncSim.plain {T : Stat} {n : Nat} (hf : FuncSim T n) (fn : String) (g : CSem2.Func) (sid : Nat)
+    (ρ : List Int) (v : Int) (M : Mem) (rest : List Qbe.Frame) (tr : Array String) (env0 : Env)
+    (hlk : lookup T.P fn = some g) (hpw : g.pwin = []) (henv : EnvOK T.S.cs g.params ρ) (hm : MemInv M)
+    (hroom : Room T.K T.d M) (htop : M.sp ≤ stackTop)
+    (hargs : ∀ (k : Nat) (t : CSem.Ty) (v' : Int), g.params[k]? = some t → ρ[k]? = some v' →
+      ∃ r, env0[tmpName (2 * k + 1)]? = some r ∧ StoreVal t v' r)
+    (hex : exec T.S.cs T.P n (initStore g ρ) g.body = some (.ret v)) :
+    ∃ k st r, Reach T.S.p T.S.ext k
+        (mkSt ⟨FuncInfo.of (Lower2.emitFunc T.S.cs sid g), M.stack.size, M.sp, rest, tr⟩ env0
+          { M with sp := M.sp - frameCost } 0 0) st ∧
+      step T.S.p T.S.ext st = retCont T.S.p rest M tr (.scalar r) ∧ RetRep g.ret v r ∧
+      InRange (g.ret.intTy T.S.cs) v :=
+  hf fn g sid ρ [] v M rest tr env0 hlk henv hm hroom htop (fun k t v' _ => hargs k t v')
+    (by intro j t w h; rw [hpw] at h; simp at h) hex
 
 /-- the arguments of a call are in the range of their types -/
 theorem evalArgs_envOK (cs : Bool) (vt : List CSem.Ty) (s : Store)
@@ -292,7 +310,7 @@ theorem evalArgs_envOK (cs : Bool) (vt : List CSem.Ty) (s : Store)
 
 /-- the memory while the body runs has room for the activations the caller was promised -/
 theorem Stat.room_at (T : Stat) {s : Store} {env : Env} {M : Mem}
-    (inv : SInv T.M0 T.S.cs T.cnts T.σ T.vtys s env M) : Room T.K T.d M := by
+    (inv : SInv T.M0 T.S.cs T.cnts T.W T.σ T.vtys s env M) : Room T.K T.d M := by
   obtain ⟨h1, h2⟩ := T.hroom
   rw [Nat.succ_mul] at h1 h2
   have := inv.a.sp_lo
@@ -344,7 +362,7 @@ variable (T : Stat) {s : Store} {lp : Bool × Bool} {brk cont : String} {c : SCt
 theorem sim_callcore (n : Nat) (hf : FuncSim T n) (hd : 0 < T.d) {rt : CSem.Ty} {fn : String}
     {args : List Expr} {g : CSem2.Func} {vs : List Int} {v : Int}
     (hlk : lookup T.P fn = some g) (hret : g.ret = rt) (hpar : args.map (·.ty) = g.params)
-    (hvs : evalArgs T.S.cs s args = some vs)
+    (hpw : g.pwin = []) (hvs : evalArgs T.S.cs s args = some vs)
     (hbody : exec T.S.cs T.P n (initStore g vs) g.body = some (.ret v))
     (hwa : args.all (fun e => e.wt (T.vtys.take nd)) = true) (hp : Pos T c nd pre)
     (hpre : ∀ i, i < nd → T.σ.getD i 0 = c.slots.getD i 0)
@@ -353,11 +371,11 @@ theorem sim_callcore (n : Nat) (hf : FuncSim T n) (hd : 0 < T.d) {rt : CSem.Ty} 
     (hits : T.S.its = pre ++ (lowerArgs T.S.cs c.slots args c.ctx).1 ++
       .ins (.call (some (tmpName ((lowerArgs T.S.cs c.slots args c.ctx).2.2.lastid + 1), .base (cls rt)))
         (.glob fn false) (lowerArgs T.S.cs c.slots args c.ctx).2.1 none) :: post)
-    (inv : SInv T.M0 T.S.cs T.cnts T.σ T.vtys s env M) :
+    (inv : SInv T.M0 T.S.cs T.cnts T.W T.σ T.vtys s env M) :
     ∃ k env2 r', T.Reach k (T.at env M pre) (T.at env2 M (pre ++ (lowerArgs T.S.cs c.slots args c.ctx).1 ++
         [.ins (.call (some (tmpName ((lowerArgs T.S.cs c.slots args c.ctx).2.2.lastid + 1), .base (cls rt)))
           (.glob fn false) (lowerArgs T.S.cs c.slots args c.ctx).2.1 none)])) ∧
-      SInv T.M0 T.S.cs T.cnts T.σ T.vtys s env2 M ∧
+      SInv T.M0 T.S.cs T.cnts T.W T.σ T.vtys s env2 M ∧
       Frame c.lastid ((lowerArgs T.S.cs c.slots args c.ctx).2.2.lastid + 1) env env2 ∧
       readVal T.S.p env2 (.tmp (tmpName ((lowerArgs T.S.cs c.slots args c.ctx).2.2.lastid + 1))) = .ok r' ∧
       Rep rt v r' ∧ InRange (rt.intTy T.S.cs) v := by
@@ -379,7 +397,7 @@ theorem sim_callcore (n : Nat) (hf : FuncSim T n) (hd : 0 < T.d) {rt : CSem.Ty} 
   have hl1 : c.lastid ≤ la.2.2.lastid := by
     have := (lowerArgs_good T.S.cs c.slots args c.ctx).1
     rw [hla] at this; exact this
-  have inv1 : SInv T.M0 T.S.cs T.cnts T.σ T.vtys s env1 M :=
+  have inv1 : SInv T.M0 T.S.cs T.cnts T.W T.σ T.vtys s env1 M :=
     inv.env (slots_kept hp hpre (fun k hk hkv => by have := hfut k hk hkv; omega) hfr1)
   -- the callee
   obtain ⟨sid, hfi⟩ := T.hfuncs fn g hlk
@@ -393,9 +411,9 @@ theorem sim_callcore (n : Nat) (hf : FuncSim T n) (hd : 0 < T.d) {rt : CSem.Ty} 
     (hroomM.sp_enter hd)
   have hstep1 := step_call_item T hits hrd1 hfi henter
   have hsptop : M.sp ≤ stackTop := Nat.le_trans inv1.a.sp_hi inv1.a.top
-  obtain ⟨k, st, r, hreachc, hstepc, hrr, hrg⟩ := hf fn g sid vs v M
+  obtain ⟨k, st, r, hreachc, hstepc, hrr, hrg⟩ := hf.plain fn g sid vs v M
     (mkFr T.S.x env1 (posOf T.S.o0 (pre ++ la.1)).1 (posOf T.S.o0 (pre ++ la.1)).2 :: T.S.x.rest) T.S.x.tr env0
-    hlk henvOK inv1.a.mem hroomM hsptop hargs0 hbody
+    hlk hpw henvOK inv1.a.mem hroomM hsptop hargs0 hbody
   -- back in the caller
   rw [hret] at hrr hrg
   obtain ⟨r', hco, hrep'⟩ := rep_coerce hrr.1
@@ -414,11 +432,11 @@ theorem sim_callcore (n : Nat) (hf : FuncSim T n) (hd : 0 < T.d) {rt : CSem.Ty} 
 theorem sim_call (n : Nat) (hf : FuncSim T n) (hd : 0 < T.d) (dst : Option (Nat × CSem.Ty)) (rt : CSem.Ty)
     (fn : String) (args : List Expr) {out : CSem2.Outcome} {nd' : Nat}
     (hex : exec T.S.cs T.P (n + 1) s (.call dst rt fn args) = some out)
-    (hfr : frag T.P T.cnts (.call dst rt fn args) = true)
+    (hfr : frag T.P T.cnts T.W (.call dst rt fn args) = true)
     (hwt : Stmt.wt T.vtys T.ret lp.1 lp.2 nd (.call dst rt fn args) = some nd') (hp : Pos T c nd pre)
     (hext : Ext T (funcstmt T.S.cs brk cont (.call dst rt fn args) c).ctx)
     (hits : T.S.its = pre ++ (funcstmt T.S.cs brk cont (.call dst rt fn args) c).items ++ post)
-    (inv : SInv T.M0 T.S.cs T.cnts T.σ T.vtys s env M) :
+    (inv : SInv T.M0 T.S.cs T.cnts T.W T.σ T.vtys s env M) :
     Post T lp brk cont (T.at env M pre) (pre ++ (funcstmt T.S.cs brk cont (.call dst rt fn args) c).items)
       (funcstmt T.S.cs brk cont (.call dst rt fn args) c).ctx out := by
   simp only [exec] at hex
@@ -431,7 +449,9 @@ theorem sim_call (n : Nat) (hf : FuncSim T n) (hd : 0 < T.d) (dst : Option (Nat 
       cases hP : T.P with
       | nil => rw [hP] at hlk; simp [lookup] at hlk
       | cons _ _ => rfl
-    simp only [frag, hne, Bool.false_or, callsOK, hlk, Bool.and_eq_true, beq_iff_eq] at hfr
+    simp only [frag, hne, Bool.false_or, callsOK, hlk, Bool.and_eq_true, beq_iff_eq,
+      List.isEmpty_iff] at hfr
+    obtain ⟨⟨hfr, hpw⟩, hdst⟩ := hfr
     simp only [Stmt.wt] at hwt
     split at hwt
     · rename_i hw
@@ -459,7 +479,7 @@ theorem sim_call (n : Nat) (hf : FuncSim T n) (hd : 0 < T.d) (dst : Option (Nat 
                 .ins (.call (some (tmpName ((lowerArgs T.S.cs c.slots args c.ctx).2.2.lastid + 1), .base (cls rt)))
                   (.glob fn false) (lowerArgs T.S.cs c.slots args c.ctx).2.1 none) :: post := by
               rw [hits]; simp only [List.append_assoc, List.singleton_append]
-            obtain ⟨k, env2, r', hreach, inv2, _⟩ := sim_callcore T n hf hd hlk hfr.1 hfr.2 hvs hbody hw.1 hp
+            obtain ⟨k, env2, r', hreach, inv2, _⟩ := sim_callcore T n hf hd hlk hfr.1 hfr.2 hpw hvs hbody hw.1 hp
               hpre hfut hits' inv
             refine ⟨hp.jump, k, env2, M, ?_, inv2⟩
             rw [← List.append_assoc]
@@ -468,6 +488,7 @@ theorem sim_call (n : Nat) (hf : FuncSim T n) (hd : 0 < T.d) (dst : Option (Nat 
             obtain ⟨i, t⟩ := d
             simp only [Option.some.injEq] at hex
             subst hex
+            simp only [decide_eq_true_eq] at hdst
             simp only [dstOK, Bool.and_eq_true, decide_eq_true_eq, beq_iff_eq] at hw
             obtain ⟨hwa, hi, hkt⟩ := hw
             simp only [funcstmt, funcopen_none hp.jump, List.nil_append] at hext hits ⊢
@@ -532,15 +553,15 @@ theorem sim_call (n : Nat) (hf : FuncSim T n) (hd : 0 < T.d) (dst : Option (Nat 
                   (.glob fn false) (lowerArgs T.S.cs c.slots args c.ctx).2.1 none) ::
                 (ov.items ++ storeIns t ov.val (c.slots.getD i 0) :: post) := by
               rw [hits0]; simp only [List.append_assoc, List.singleton_append, List.cons_append, List.nil_append]
-            obtain ⟨k, env2, r', hreach, inv2, hfr2, hval2, hrep2, hrg⟩ := sim_callcore T n hf hd hlk hfr.1 hfr.2 hvs
+            obtain ⟨k, env2, r', hreach, inv2, hfr2, hval2, hrep2, hrg⟩ := sim_callcore T n hf hd hlk hfr.1 hfr.2 hpw hvs
               hbody hwa hp hpre (fun k hk hkv => by have := hfut3 k hk hkv; omega) hits' inv
             obtain ⟨n3, env3, r3, hreach3, hfr3, hval3, hrep3, _⟩ := hcast env2 r' hval2 hrep2 hrg
-            have inv3 : SInv T.M0 T.S.cs T.cnts T.σ T.vtys s env3 M :=
+            have inv3 : SInv T.M0 T.S.cs T.cnts T.W T.σ T.vtys s env3 M :=
               inv2.env (slots_kept hp hpre hfut3 (Frame.mono hfr3
                 (by show c.lastid ≤ (lowerArgs T.S.cs c.slots args c.ctx).2.2.lastid + 1; omega) (Nat.le_refl _)))
             have hv : InRange (t.intTy T.S.cs) (conv (rt.intTy T.S.cs) (t.intTy T.S.cs) v) :=
               Eval.wrap_inRange (ty_valid T.S.cs t) _
-            obtain ⟨M', hr4, inv4⟩ := sim_store T i t ov.val (c.slots.getD i 0) hits0 (hpre i hi) hkt hval3 hv
+            obtain ⟨M', hr4, inv4⟩ := sim_store T i t ov.val (c.slots.getD i 0) hits0 (hpre i hi) hkt hdst hval3 hv
               hrep3 inv3
             refine ⟨hp.jump, k + n3 + 1, env3, M', ?_, inv4⟩
             have := (hreach.trans hreach3).trans hr4
